@@ -85,34 +85,27 @@ theorem C17_jsonnum_reject (cfg : Config) (text : List Nat) (hp : parseDec text 
     Serde.jsonNumDeserialize cfg text = none := by
   unfold Serde.jsonNumDeserialize; rw [hp]
 
-/-- **Partial** (full statement: `Serde.isJsonNumber (Serde.jsonNumText cfg npl d) = true` for every storable `d`,
-    i.e. also when `Display` picks the plain or the `E` notation - those two layouts are covered by the
-    correspondence only): the text the JSON-number adapter hands to `serde_json::Number` is inside the JSON
-    number grammar whenever `Display` chooses the dotless notation `<digits>e+<n>`, and for the zero of negative
-    scale that the adapter special-cases. -/
-theorem C17_json_grammar_dotless_partial (cfg : Config) (npl : Nat) (d : Dec)
-    (h : chooseNotation cfg d.int.natAbs d.scale none = .dotless ∨ (d.int = 0 ∧ d.scale < 0)) :
+/-- every text the JSON-number adapter hands to `serde_json::Number` is inside the JSON number grammar, for
+    every decimal, configuration and padding limit: all layouts `Display` can choose (integers padded with zeros
+    or written `<digits>e+<n>`, the plain layout with a decimal point, the `E` notation, the dotless notation)
+    and the zero of negative scale that the adapter special-cases (`00` would not be a number). -/
+theorem C17_json_grammar (cfg : Config) (npl : Nat) (d : Dec) :
     Serde.isJsonNumber (Serde.jsonNumText cfg npl d) = true :=
-  jsonNumText_grammar_dotless cfg npl d h
+  jsonNumText_grammar cfg npl d
 
-/-- **Partial**, stronger form: the same for every integer (scale ≤ 0, whichever layout `Display` picks: padded
-    with zeros, `<digits>e+<n>` beyond the padding limit, or dotless) and for the `E` notation (`d.dddE-n`, chosen
-    for values with many leading zeros).  What is left to the correspondence alone is the plain layout with a
-    decimal point (`fullScaleText` for scale > 0). -/
-theorem C17_json_grammar_partial (cfg : Config) (npl : Nat) (d : Dec)
-    (h : d.scale ≤ 0 ∨ chooseNotation cfg d.int.natAbs d.scale none ≠ .full) :
-    Serde.isJsonNumber (Serde.jsonNumText cfg npl d) = true := by
-  rcases h with h | h
-  · exact jsonNumText_grammar_int cfg npl d h
-  · exact jsonNumText_grammar_exp cfg npl d (Or.inl h)
+/-- corollaries by layout, kept for the record of how the proof is assembled -/
+theorem C17_json_grammar_layouts (cfg : Config) (npl : Nat) (d : Dec) :
+    (d.scale ≤ 0 → Serde.isJsonNumber (Serde.jsonNumText cfg npl d) = true) ∧
+    (chooseNotation cfg d.int.natAbs d.scale none ≠ .full → Serde.isJsonNumber (Serde.jsonNumText cfg npl d) = true) :=
+  ⟨jsonNumText_grammar_int cfg npl d, fun h => jsonNumText_grammar_exp cfg npl d (Or.inl h)⟩
 
-/-- the premise is met: `1.2E-29` under the default thresholds is printed in the `E` notation -/
+/-- the layouts occur: `1.2E-29` under the default thresholds is printed in the `E` notation -/
 example : chooseNotation (⟨100, .HalfEven, 5, 15, 1000, 150000⟩ : Config) (12 : Nat) 30 none = .exponential := by
   have h : (natStr 12).length = 2 := by simp [natStr, digitsLE]
   unfold chooseNotation
   simp [h]
 
-/-- the premise is met: `-12e+20` under the default thresholds is printed dotless -/
+/-- the layouts occur: `-12e+20` under the default thresholds is printed dotless -/
 example : chooseNotation (⟨100, .HalfEven, 5, 15, 1000, 150000⟩ : Config) (12 : Nat) (-20) none = .dotless := by decide
 
 end BigDec
